@@ -3,6 +3,7 @@ package main
 import (
 	"fmt"
 	"math/big"
+	"strings"
 
 	"gitlab.com/aquachain/aquachain/aquadb"
 	"gitlab.com/aquachain/aquachain/common"
@@ -26,6 +27,38 @@ func corrupt(t *chainx.RichTree, r *hx.Rng, id int, kind string) (*types.Block, 
 	h := b.Header()
 	txs := append([]*types.Transaction{}, b.Transactions()...)
 	uncles := b.Uncles()
+	// targeted body corruptions `<what>@<index>` (index "last" = len-1): used on very large blocks
+	if at := strings.Index(kind, "@"); at > 0 {
+		what, idxS := kind[:at], kind[at+1:]
+		idx := len(txs) - 1
+		if idxS != "last" {
+			fmt.Sscan(idxS, &idx)
+		}
+		if idx < 0 || idx >= len(txs) {
+			return nil, false
+		}
+		switch what {
+		case "equiv-tx": // same sender, nonce, gas, price, zero value — only the (never existing) recipient differs: executes identically
+			old := txs[idx]
+			key := t.KeyOf(old)
+			if key < 0 || old.To() == nil || old.Value().Sign() != 0 || len(old.Data()) != 0 || old.To()[17] != 0xe0 {
+				return nil, false
+			}
+			txs[idx] = t.Sign(types.NewTransaction(old.Nonce(), chainx.GhostAddr(1, idx), big.NewInt(0), old.Gas(), old.GasPrice(), nil), key)
+		case "drop-tx":
+			txs = append(txs[:idx], txs[idx+1:]...)
+		case "dup-tx":
+			txs = append(txs[:idx+1], txs[idx:]...)
+		case "swap-tx":
+			if idx+1 >= len(txs) {
+				return nil, false
+			}
+			txs[idx], txs[idx+1] = txs[idx+1], txs[idx]
+		default:
+			return nil, false
+		}
+		return types.NewBlockWithHeader(h).WithBody(txs, uncles), true
+	}
 	switch kind {
 	case "txhash":
 		h.TxHash = flip(h.TxHash)
@@ -162,11 +195,11 @@ func (f *refusal) expectRefused(bc *core.BlockChain, db aquadb.Database, batch t
 }
 
 // corruptBlock runs every applicable single corruption of node id through three delivery shapes.
-func (c *treeCtx) corruptBlock(run *hx.Run, rt *chainx.RichTree, r *hx.Rng, id int, seedTag string) {
+func (c *treeCtx) corruptBlock(run *hx.Run, rt *chainx.RichTree, r *hx.Rng, id int, seedTag string, kinds []string) {
 	t := c.t
 	node := t.Nodes[id]
 	path := t.PathIDs(node.Parent)
-	for _, kind := range corruptionKinds {
+	for _, kind := range kinds {
 		cb, ok := corrupt(rt, r, id, kind)
 		if !ok {
 			run.Count("corruption-na:" + kind)
